@@ -20,8 +20,8 @@ from haiway.helpers.retries import retry  # noqa: E402
 ID = "C14"
 TECHNIQUE = "exhaustive fault-sequence enumeration: every outcome sequence of the wrapped function (chooser-driven) x every configuration, counter-loop reference model"
 RULE = (
-    "per configuration (limit 1..4 x catching {default,class,tuple,set} x delay {None,int,float,"
-    "function} x sync/async x inside/outside a scope) every reachable sequence of call outcomes "
+    "per configuration (limit 1..4 x catching {default,class,tuple,set,empty tuple,empty set} x delay {None,int,float,"
+    "function, function declared with *args only} x sync/async x inside/outside a scope) every reachable sequence of call outcomes "
     "over {value, caught, subclass of caught (one and two levels), uncaught Exception, CancelledError, other "
     "BaseException}; plus ONE wrapper used 2-3 times in a row (every outcome sequence per use over {value, caught, subclass, uncaught}, delay function depending on the exception); non-trivial = at least one retry happened or a non-retryable error ended it"
 )
@@ -72,8 +72,12 @@ OUTCOMES = ["value", "caught", "subcaught", "other", "cancelled", "base", "badst
 
 def programs(tier: str):
     for limit in BOUNDS[tier]["limits"]:
-        for catching in ("default", "class", "tuple", "set"):
-            for delay in ("none", "int", "float", "fn", "zero", "zerof"):
+        for catching in ("default", "class", "tuple", "set", "empty-tuple", "empty-set"):
+            for delay in ("none", "int", "float", "fn", "zero", "zerof", "fn-varargs"):
+                if catching.startswith("empty") and delay not in ("none", "fn"):
+                    continue
+                if delay == "fn-varargs" and catching != "class":
+                    continue
                 for mode in ("sync", "async"):
                     for scoped in (False, True):
                         yield {
@@ -342,12 +346,19 @@ def execute(program, ch: Chooser) -> Result:  # noqa: C901, PLR0912, PLR0915
         kwargs["catching"] = (Unrelated, Caught)
     elif catching == "set":
         kwargs["catching"] = {Unrelated, Caught}
+    elif catching == "empty-tuple":
+        kwargs["catching"] = ()  # nothing is caught: every exception ends the call
+    elif catching == "empty-set":
+        kwargs["catching"] = set()
     if delay == "int":
         kwargs["delay"] = 2
     elif delay == "float":
         kwargs["delay"] = 0.5
     elif delay == "fn":
         kwargs["delay"] = delay_fn
+    elif delay == "fn-varargs":
+        # a delay function that declares a single var-positional parameter (a forwarding wrapper)
+        kwargs["delay"] = lambda *details: delay_fn(*details)
     elif delay == "zero":
         kwargs["delay"] = 0
     elif delay == "zerof":
@@ -403,6 +414,10 @@ def execute(program, ch: Chooser) -> Result:  # noqa: C901, PLR0912, PLR0915
                 viols.append(viol("termination", mode, "call returns", "pending"))
         # ---- reference: counter loop ----
         caught_kinds = {"caught", "subcaught", "deepcaught", "badstr"} | ({"other"} if catching == "default" else set())
+        if catching.startswith("empty"):
+            caught_kinds = set()
+        if delay == "fn-varargs":
+            delay = "fn"  # same expectations as the two-parameter delay function
         exp_calls = 0
         terminal = False
         for rec in calls:
